@@ -26,7 +26,8 @@ PARALLEL = 8
 SHARD = 60
 RULE = ("random DCOPs of 1-6 variables (domains of 1-3 integer values, also non-contiguous / unsorted), binary "
         "constraints of random density, ternary constraints (25%), duplicate scopes, unary constraints, isolated "
-        "variables, variables with own cost tables (dict or function), min/max, stop_cycle 1-5; algorithm mgm, "
+        "variables, variables with own cost tables (dict or function), min/max, stop_cycle 1-5; algorithm mgm "
+        "(break_mode lexic or, 40%, random: same behaviour on the code as it is, the test compares with the module), "
         "mgm2 (threshold 0-1, the three favor modes) or dsa (variants A/B/C, probability 0-1); real computations "
         "run by the thread-free netdriver under a seeded schedule from 6 policies (uniform, drain, newest, "
         "startlate, starve:<node>), 75% to quiescence, 25% cut after 1-60 actions; every random.choice / "
@@ -97,6 +98,8 @@ def gen(rng, n, tier):
         if algo == "mgm2":
             params = dict(threshold=rng.choice([0.0, 0.3, 0.5, 0.5, 0.8, 1.0]),
                           favor=rng.choice(["unilateral", "no", "coordinated"]))
+        if algo == "mgm" and rng.random() < 0.4:
+            params = dict(break_mode="random")    # = lexical on the code as it is (dead comparison), see RULE
         if algo == "dsa":
             params = dict(variant=rng.choice("BCCBA" if tie else "ABC"),
                           probability=rng.choice([0, 300, 500, 700, 700, 1000]) / 1000.0)
